@@ -222,6 +222,13 @@ def r_angle(rng, kind=None, maxdeg=179):
         x = r_float(rng, 0, maxdeg / 0.9)
         return {'$angle': ['GON', -x if neg else x]}
     d, m, s = r_dms_parts(rng, maxdeg)
+    if kind in ('DMS', 'DDM') and rng.random() < 0.06:
+        # parts that are not carried over (75.5 seconds, 60 minutes): the constructors accept them and every
+        # method treats them as plain sums
+        if rng.random() < 0.5:
+            s = round(s + 60.0 * rng.choice([0, 1, 1]), 5) if rng.random() < 0.7 else 60.0
+        else:
+            m = m + 60 if rng.random() < 0.5 else 60
     if kind == 'DMS':
         if neg:
             return {'$angle': ['DMS', -d, m, s] if d else ['DMS', 0, -m, -s]}
@@ -448,10 +455,16 @@ for _n in ['rect_radius', 'alpha_coeff', 'beta_coeff']:
 def _gen_geo2grid(rng, ctx):
     lat, lon = r_latlon_any(rng)
     prj = r_proj(rng)
+    if rng.random() < 0.2:
+        prj = {'$const': 'isg'}
     if prj == {'$const': 'isg'}:
-        lon = r_float(rng, 141.0, 153.5) if not isinstance(lon, dict) else lon
-        zone = rng.choice([0, 0, 551, 552, 561])
+        if not isinstance(lon, dict):
+            # mostly inside the ISG zones of New South Wales; sometimes anywhere (the library must refuse those
+            # the same way every time)
+            lon = r_float(rng, 141.0, 153.5) if rng.random() < 0.6 else r_lon(rng)
+        zone = rng.choice([0, 0, 0, 0, 0, 551, 552, 561, 541, 572, 501, 571, 553])
         ell = {'$const': 'ans'} if rng.random() < 0.8 else r_ell(rng)
+        return [lat, lon, zone, ell, prj]
     else:
         zone = 0 if rng.random() < 0.7 else rng.randrange(1, 61)
         ell = r_ell(rng)
@@ -477,7 +490,7 @@ def _gen_grid2geo(rng, ctx):
     if k == 2:
         return [zone, east, north, hemi, r_ell(rng)]
     if rng.random() < 0.5:
-        return [rng.choice([551, 552, 561, 562]), round(rng.uniform(200000, 400000), 3),
+        return [rng.choice([551, 552, 561, 562, 541, 572, 501, 571, 553, 563]), round(rng.uniform(200000, 400000), 3),
                 round(rng.uniform(1000000, 1900000), 3), 'south', {'$const': 'ans'}, {'$const': 'isg'}]
     return [zone, east, north, hemi, r_ell(rng), r_proj(rng)]
 
